@@ -304,11 +304,11 @@ inductive Lsn | none | accept | acceptRO | decline
   deriving DecidableEq, Repr
 
 /-- the incoming in-band transfer job from `From.other`: none; `start` = accepted and waiting for `<open/>`
-(StartState) — also the behaviour of a job that has FINISHED after its device failed to store a block (it stays in the
-manager's list: `<open/>` and `<close/>` still find it, `<data/>` no longer does); `opened` = TransferState, expecting
-sequence number 0, whatever the receiving device does with the block (a failed or short write terminates the job
-inside `writeData`, the block is acknowledged all the same) -/
-inductive Job | none | start | opened
+(StartState); `opened` = TransferState, expecting sequence number 0, whatever the receiving device does with the block
+(a failed or short write terminates the job inside `writeData`, the block is acknowledged all the same); `finished` =
+terminated (here: by a failed write) but still in the manager's list until the application deletes it: `<close/>`
+still finds it, `<data/>` and — since repo commit 31a1bb4 — `<open/>` do not -/
+inductive Job | none | start | opened | finished
   deriving DecidableEq, Repr
 
 /-- streamInitiationSetReceived: which single reply an SI offer gets -/
@@ -329,7 +329,8 @@ def ibbDataKind (j : Job) (s : Stanza) : RKind :=
     (if headFlag2 s then .result else .error .cancel .unexpectedRequest)
   else .error .cancel .itemNotFound
 def ibbOpenKind (j : Job) (s : Stanza) : RKind :=
-  if j ≠ .none ∧ s.frm = .other ∧ headFlag s = true then
+  -- only a job waiting for the bytestream is opened (repo commit 31a1bb4)
+  if j = .start ∧ s.frm = .other ∧ headFlag s = true then
     (if headFlag2 s then .result else .error .modify .resourceConstraint)
   else .error .cancel .itemNotFound
 
@@ -410,7 +411,7 @@ def rowOf : Mgr → Row
   | .transferAcceptRO => ⟨.transferAcceptRO, false, transferBeh .acceptRO .none⟩
   | .transferJobOpenFail => ⟨.transferJobOpenFail, false, transferBeh .accept .opened⟩    -- device write returns -1
   | .transferJobOpenShort => ⟨.transferJobOpenShort, false, transferBeh .accept .opened⟩   -- device takes part of a block
-  | .transferJobFailed => ⟨.transferJobFailed, false, transferBeh .accept .start⟩          -- finished after a failed write
+  | .transferJobFailed => ⟨.transferJobFailed, false, transferBeh .accept .finished⟩       -- finished after a failed write
   | .uploadRequest => ⟨.uploadRequest, false, uploadRequestBeh⟩
   | .vcard => ⟨.vcard, false, vcardBeh⟩
   | .version => ⟨.version, false, versionBeh⟩
